@@ -29,7 +29,7 @@ NOT_APPLICABLE = {}
 HOOK_COMMITS = ["87c6d7a"]
 
 # properties whose check is finished and registered in MANIFEST.json
-READY = ["C01", "C02", "C03", "C04", "C05", "C06", "C07", "C14", "C19"]
+READY = ["C%02d" % i for i in range(1, 21)]
 
 PROPS = {}
 for f in sorted(glob.glob(os.path.join(HERE, "props.d", "*.json"))):
